@@ -9,6 +9,8 @@
 static unsigned int g_expect_id;   /* the slot id the next getVariant call must ask for */
 static int g_pending;              /* 1: a slot was fetched and not yet visited; 2: visited, successor not yet read */
 static int g_proto_ok;             /* no protocol violation so far */
+static _Bool g_addmember_failed;
+static unsigned g_derefs;
 static unsigned long g_out_len;
 static unsigned long g_children;   /* number of slots visited (mod 2^64) */
 #define G_OUT_LEN_DECLARED 1
@@ -1290,9 +1292,14 @@ struct StringNode *StringBuffer__save(struct StringBuffer *self) {
 }
 struct VariantData *ObjectData__addMember_StringNode_p(struct ObjectData *self, struct StringNode *key, struct ResourceManager *resources) {
   if (self != &g_object || key != &g_saved || resources != &g_rm || g_stage != 2) g_proto_ok = 0;
-  if (nondet_int()) { g_child_err = E_NOMEM; return (struct VariantData *)0; }
+  if (nondet_int()) { g_child_err = E_NOMEM; g_addmember_failed = 1; return (struct VariantData *)0; }
   g_stage = 3;
   return &g_child;
+}
+/* dereferenceString [contract proved: strings/pool_dereference]: gives back the reference taken by save() when addMember failed */
+void ResourceManager__dereferenceString(struct ResourceManager *self, char *s) {
+  if (self != &g_rm || !g_addmember_failed || s != g_saved.data) g_proto_ok = 0;
+  g_derefs++;
 }
 unsigned int MsgPackDeserializer_StubReader__parseVariant_AllowAllFilter(struct MsgPackDeserializer_StubReader *self, struct VariantData *variant,
     struct AllowAllFilter filter, struct DeserializationOption__NestingLimit nestingLimit) {
@@ -1311,6 +1318,7 @@ static void h_des_coll(int isMap) {
   struct AllowAllFilter filter; memset(&filter, 0, sizeof filter);
   struct DeserializationOption__NestingLimit nl; nl.value_ = in_u8(); g_nest = nl.value_;
   unsigned long n = in_u64();
+  g_addmember_failed = 0; g_derefs = 0;
   g_n0 = n; g_entries = 0; g_stage = 0; g_proto_ok = 1; g_to_calls = 0; g_child_err = 0;
   unsigned err = isMap ? MsgPackDeserializer_StubReader__readObject_AllowAllFilter(&d, &g_target, n, filter, nl)
                        : MsgPackDeserializer_StubReader__readArray_AllowAllFilter(&d, &g_target, n, filter, nl);
